@@ -1,4 +1,1347 @@
-pub fn run(_cfg: vh_core::RunCfg) {
-    eprintln!("C20 not built yet");
+//! C20 — upgraded services keep every setting, and antnode accepts what antctl writes.
+//!
+//! Per case: a combination of the installable node options. The real `add_node` runs over FakeOS
+//! and the `ServiceInstallCtx` it hands to `install` is captured; optionally the service is started
+//! (so that the registry learns the node's port); then the real `ServiceManager::upgrade(force)` runs
+//! on the registry entry and the re-install `ServiceInstallCtx` is captured.
+//!
+//! Oracle, from the statement:
+//!  (1) program, user, label, contents, working directory identical; arguments identical as a
+//!      multiset of (flag, values) groups (global part and sub-command part separately);
+//!      autostart / environment equal the `UpgradeOptions` passed (explicit upgrade inputs); if the
+//!      service was started and no port was requested, `--port <recorded port>` is the one admissible
+//!      addition;
+//!  (2) the real `antnode` binary (built from /repo with the `verif-hooks` feature, which adds an
+//!      early exit printing the parsed options) exits 0 on both argument lists, prints the same
+//!      parsed options for both, and those equal the intended configuration field by field.
+
+use crate::fakeos::{self, FakeOs};
+use ant_bootstrap::PeersArgs;
+use ant_evm::{EvmNetwork, RewardsAddress};
+use ant_logging::LogFormat;
+use ant_node_manager::{
+    add_services::{
+        add_node,
+        config::{AddNodeServiceOptions, PortRange},
+    },
+    ServiceManager, VerbosityLevel,
+};
+use ant_service_management::{NodeRegistry, NodeService, UpgradeOptions};
+use proptest::prelude::*;
+use serde::{Deserialize, Serialize};
+use serde_json::json;
+use service_manager::ServiceInstallCtx;
+use std::{
+    collections::BTreeMap,
+    net::{IpAddr, Ipv4Addr, SocketAddr},
+    path::{Path, PathBuf},
+    process::Command,
+    str::FromStr,
+    sync::OnceLock,
+    time::{Duration, Instant},
+};
+use vh_core::{Ctx, Failure, Report, RunCfg, SectionStats};
+
+// bits of `Case::mask`: which optional options are given
+const B_NODE_PORT: u16 = 1 << 0;
+const B_RPC_PORT: u16 = 1 << 1;
+const B_METRICS_PORT: u16 = 1 << 2;
+const B_NODE_IP: u16 = 1 << 3;
+const B_RPC_IP: u16 = 1 << 4;
+const B_PEERS: u16 = 1 << 5;
+const B_LOG_FORMAT: u16 = 1 << 6;
+const B_MAX_LOG: u16 = 1 << 7;
+const B_MAX_ARCH: u16 = 1 << 8;
+const B_OWNER: u16 = 1 << 9;
+const B_NETWORK_ID: u16 = 1 << 10;
+const B_HOME: u16 = 1 << 11;
+const B_UPNP: u16 = 1 << 12;
+const B_ENV: u16 = 1 << 13;
+const N_BITS: u32 = 14;
+const BIT_NAMES: [&str; 14] = [
+    "node_port",
+    "rpc_port",
+    "metrics_port",
+    "node_ip",
+    "rpc_ip",
+    "peers",
+    "log_format",
+    "max_log_files",
+    "max_archived_log_files",
+    "owner",
+    "network_id",
+    "home_network",
+    "upnp",
+    "env",
+];
+
+#[derive(Clone, Debug, Serialize, Deserialize)]
+pub enum Evm {
+    ArbitrumOne,
+    ArbitrumSepolia,
+    Custom {
+        https: bool,
+        host: String,
+        port: Option<u16>,
+        path: String,
+        token: u64,
+        payments: u64,
+    },
+}
+
+#[derive(Clone, Debug, Serialize, Deserialize)]
+pub struct PeerAddr {
+    pub ip: [u8; 4],
+    pub port: u16,
+    /// 0: /udp/../quic-v1/p2p/<id>, 1: /udp/../quic-v1, 2: /tcp/../ws/p2p/<id>, 3: /dns4/<host>/udp/../quic-v1/p2p/<id>
+    pub form: u8,
+    pub id: u8,
+}
+
+#[derive(Clone, Debug, Serialize, Deserialize)]
+pub struct PeersSpec {
+    pub first: bool,
+    pub local: bool,
+    pub testnet: bool,
+    pub ignore_cache: bool,
+    pub addrs: Vec<PeerAddr>,
+    pub urls: Vec<String>,
+    /// name of the cache directory under the case's temp dir
+    pub cache_dir: Option<String>,
+}
+
+#[derive(Clone, Debug, Serialize, Deserialize)]
+pub struct UpgradeSpec {
+    pub auto_restart: bool,
+    pub start_service: bool,
+    /// `antctl upgrade --env ...`; None: the registry's variables are used (as cmd/node.rs does)
+    pub env_override: Option<Vec<(String, String)>>,
+}
+
+#[derive(Clone, Debug, Serialize, Deserialize)]
+pub struct Case {
+    pub mask: u16,
+    pub evm: Evm,
+    pub node_port: u16,
+    pub rpc_port: u16,
+    pub metrics_port: u16,
+    pub enable_metrics_server: bool,
+    pub node_ip: [u8; 4],
+    pub rpc_ip: [u8; 4],
+    pub peers: PeersSpec,
+    pub log_json: bool,
+    pub max_log_files: u32,
+    pub max_archived_log_files: u32,
+    pub owner: String,
+    pub network_id: u8,
+    pub env: Vec<(String, String)>,
+    pub user_mode: bool,
+    pub auto_restart: bool,
+    pub count_given: bool,
+    pub data_dir: String,
+    pub log_dir: String,
+    pub rewards: u64,
+    pub start_before_upgrade: bool,
+    pub up: UpgradeSpec,
+}
+
+impl Case {
+    fn has(&self, bit: u16) -> bool {
+        self.mask & bit != 0
+    }
+}
+
+// ------------------------------------------------------------------------------------------------
+// generators
+// ------------------------------------------------------------------------------------------------
+
+fn dir_name() -> BoxedStrategy<String> {
+    // single path component; spaces, quotes, '=', non-ASCII; never '/', NUL, or empty
+    prop_oneof![
+        3 => "[a-z]{1,8}",
+        3 => "[a-z]{1,5} [a-z]{1,5}",
+        1 => "[a-z]{1,3}  [a-z]{1,3} [a-z]{1,3}",
+        1 => Just("donn\u{e9}es n\u{153}uds".to_string()),
+        1 => "[a-z]{1,4}'[a-z]{1,4}",
+        1 => "[a-z]{1,4}=[a-z]{1,4}",
+        1 => "--[a-z]{1,6}",
+        1 => "[a-z]{1,4},[a-z]{1,4}",
+    ]
+    .boxed()
+}
+
+fn owner_name() -> BoxedStrategy<String> {
+    // a Discord-style user name; never starts with '-' (antctl's own clap would take that as a flag)
+    prop_oneof![
+        6 => "[A-Za-z0-9_.]{1,24}",
+        2 => "[A-Za-z0-9_.][A-Za-z0-9_. #-]{0,16}",
+        1 => "[A-Z\u{c4}\u{d6}\u{dc}\u{c9}]{1,4}[a-z\u{df}\u{e9}]{0,6}",
+    ]
+    .boxed()
+}
+
+fn url_strategy() -> BoxedStrategy<String> {
+    // no ',' (antctl's --network-contacts-url splits on it, so a single URL never contains one)
+    (
+        any::<bool>(),
+        "[a-z]{1,8}(\\.[a-z]{2,5}){0,2}",
+        proptest::option::of(1024u16..65535),
+        proptest::collection::vec("[a-zA-Z0-9_.-]{1,8}", 0..3),
+        proptest::option::of("[a-z]{1,4}=[a-z0-9]{1,4}"),
+    )
+        .prop_map(|(https, host, port, segs, query)| {
+            let mut s = format!("{}://{}", if https { "https" } else { "http" }, host);
+            if let Some(p) = port {
+                s.push_str(&format!(":{p}"));
+            }
+            for seg in segs {
+                s.push('/');
+                s.push_str(&seg);
+            }
+            if let Some(q) = query {
+                s.push('?');
+                s.push_str(&q);
+            }
+            s
+        })
+        .boxed()
+}
+
+fn peers_spec() -> BoxedStrategy<PeersSpec> {
+    let addr = (any::<[u8; 4]>(), 1u16..65535, 0u8..4, 0u8..8).prop_map(|(ip, port, form, id)| PeerAddr {
+        ip,
+        port,
+        form,
+        id,
+    });
+    (
+        prop::bool::weighted(0.2),
+        prop::bool::weighted(0.25),
+        prop::bool::weighted(0.3),
+        prop::bool::weighted(0.3),
+        proptest::collection::vec(addr, 0..4),
+        proptest::collection::vec(url_strategy(), 0..3),
+        proptest::option::weighted(0.3, dir_name()),
+    )
+        .prop_map(|(first, local, testnet, ignore_cache, mut addrs, mut urls, cache_dir)| {
+            // the clap rules of PeersArgs, which antctl's own command line enforces:
+            // --peer and --network-contacts-url conflict with --first; --local conflicts with
+            // --network-contacts-url
+            if first {
+                addrs.clear();
+                urls.clear();
+            }
+            if local {
+                urls.clear();
+            }
+            let mut s = PeersSpec {
+                first,
+                local,
+                testnet,
+                ignore_cache,
+                addrs,
+                urls,
+                cache_dir,
+            };
+            if !s.first && !s.local && !s.testnet && !s.ignore_cache && s.addrs.is_empty() && s.urls.is_empty() && s.cache_dir.is_none() {
+                s.ignore_cache = true;
+            }
+            s
+        })
+        .boxed()
+}
+
+fn env_strategy() -> BoxedStrategy<Vec<(String, String)>> {
+    let name = prop_oneof![
+        Just("RUST_LOG".to_string()),
+        Just("ANT_LOG".to_string()),
+        Just("RUST_BACKTRACE".to_string()),
+        "VH_[A-Z]{1,5}",
+    ];
+    proptest::collection::vec((name, "[a-zA-Z0-9_:/.=-]{0,12}"), 1..4)
+        .prop_map(|mut v| {
+            // one value per name
+            let mut seen = std::collections::BTreeSet::new();
+            v.retain(|(k, _)| seen.insert(k.clone()));
+            v
+        })
+        .boxed()
+}
+
+fn evm_strategy() -> BoxedStrategy<Evm> {
+    let custom = (
+        any::<bool>(),
+        prop_oneof![
+            3 => "[a-z]{1,8}(\\.[a-z]{2,5}){0,2}",
+            1 => Just("localhost".to_string()),
+            1 => any::<[u8; 4]>().prop_map(|b| Ipv4Addr::from(b).to_string()),
+        ],
+        proptest::option::of(1u16..65535),
+        prop_oneof![2 => Just(String::new()), 1 => Just("/".to_string()), 2 => "(/[a-zA-Z0-9_-]{1,8}){1,3}"],
+        any::<u64>(),
+        any::<u64>(),
+    )
+        .prop_map(|(https, host, port, path, token, payments)| Evm::Custom {
+            https,
+            host,
+            port,
+            path,
+            token,
+            payments,
+        });
+    prop_oneof![2 => Just(Evm::ArbitrumOne), 2 => Just(Evm::ArbitrumSepolia), 3 => custom].boxed()
+}
+
+fn port_value() -> BoxedStrategy<u16> {
+    // 65535 is left out: add_node computes `port + 1` for the next service even when there is none,
+    // which the harness build (overflow checks on) turns into a panic; that arithmetic is C17's
+    // subject ("port arithmetic overflow at 65535"), and would only mask C20's search here
+    prop_oneof![
+        10 => 1024u16..65535,
+        1 => Just(65534u16),
+        1 => 1u16..1024,
+    ]
+    .boxed()
+}
+
+/// `mask`: None = random presence pattern (biased to many options), Some(m) = exactly that pattern
+pub fn case_strategy(mask: Option<u16>) -> BoxedStrategy<Case> {
+    let mask_s: BoxedStrategy<u16> = match mask {
+        Some(m) => Just(m).boxed(),
+        None => prop_oneof![
+            3 => 0u16..(1 << N_BITS),
+            // dense patterns: each option present with probability 3/4
+            2 => (0u16..(1 << N_BITS), 0u16..(1 << N_BITS)).prop_map(|(a, b)| a | b),
+            1 => Just((1u16 << N_BITS) - 1),
+        ]
+        .boxed(),
+    };
+    let ports = (
+        port_value(),
+        port_value(),
+        // a metrics port of 0 is what `antctl add --metrics-port 0` produces; kept rare
+        prop_oneof![40 => port_value(), 1 => Just(0u16)],
+        any::<bool>(),
+        any::<[u8; 4]>(),
+        prop_oneof![2 => Just([127u8, 0, 0, 1]), 1 => Just([0u8, 0, 0, 0]), 2 => any::<[u8; 4]>()],
+    );
+    let logs = (
+        any::<bool>(),
+        prop_oneof![4 => 0u32..20, 1 => any::<u32>()],
+        prop_oneof![4 => 0u32..20, 1 => any::<u32>()],
+        owner_name(),
+        any::<u8>(),
+        env_strategy(),
+    );
+    let misc = (
+        any::<bool>(),
+        any::<bool>(),
+        any::<bool>(),
+        dir_name(),
+        dir_name(),
+        any::<u64>(),
+        any::<bool>(),
+    );
+    let up = (
+        any::<bool>(),
+        any::<bool>(),
+        proptest::option::weighted(0.3, env_strategy()),
+    )
+        .prop_map(|(auto_restart, start_service, env_override)| UpgradeSpec {
+            auto_restart,
+            start_service,
+            env_override,
+        });
+    (mask_s, evm_strategy(), ports, peers_spec(), logs, misc, up)
+        .prop_map(
+            |(
+                mask,
+                evm,
+                (node_port, rpc_port, metrics_port, enable_metrics_server, node_ip, rpc_ip),
+                peers,
+                (log_json, max_log_files, max_archived_log_files, owner, network_id, env),
+                (user_mode, auto_restart, count_given, data_dir, log_dir, rewards, start_before_upgrade),
+                up,
+            )| {
+                let mut c = Case {
+                    mask,
+                    evm,
+                    node_port,
+                    rpc_port,
+                    metrics_port,
+                    enable_metrics_server,
+                    node_ip,
+                    rpc_ip,
+                    peers,
+                    log_json,
+                    max_log_files,
+                    max_archived_log_files,
+                    owner,
+                    network_id,
+                    env,
+                    user_mode,
+                    auto_restart,
+                    count_given,
+                    data_dir,
+                    log_dir,
+                    rewards,
+                    start_before_upgrade,
+                    up,
+                };
+                // the three requested ports of one service are distinct (a real caller picks
+                // different ports for different listeners)
+                let bump = |p: u16| if p >= 65534 { 1024 } else { p + 1 };
+                if c.rpc_port == c.node_port {
+                    c.rpc_port = bump(c.rpc_port);
+                }
+                while c.metrics_port != 0 && (c.metrics_port == c.node_port || c.metrics_port == c.rpc_port) {
+                    c.metrics_port = bump(c.metrics_port);
+                }
+                if c.log_dir == c.data_dir {
+                    c.log_dir.push_str("-logs");
+                }
+                // `antctl add --count` conflicts with --first
+                if c.mask & B_PEERS != 0 && c.peers.first {
+                    c.count_given = false;
+                }
+                c
+            },
+        )
+        .boxed()
+}
+
+// ------------------------------------------------------------------------------------------------
+// building the inputs
+// ------------------------------------------------------------------------------------------------
+
+fn address_from(seed: u64) -> String {
+    let mut b = [0u8; 20];
+    let mut x = seed;
+    for chunk in b.chunks_mut(8) {
+        x = vh_core::splitmix64(x);
+        let bytes = x.to_le_bytes();
+        chunk.copy_from_slice(&bytes[..chunk.len()]);
+    }
+    format!("0x{}", hex::encode(b))
+}
+
+fn evm_of(e: &Evm) -> EvmNetwork {
+    match e {
+        Evm::ArbitrumOne => EvmNetwork::ArbitrumOne,
+        Evm::ArbitrumSepolia => EvmNetwork::ArbitrumSepolia,
+        Evm::Custom {
+            https,
+            host,
+            port,
+            path,
+            token,
+            payments,
+        } => {
+            let mut url = format!("{}://{}", if *https { "https" } else { "http" }, host);
+            if let Some(p) = port {
+                url.push_str(&format!(":{p}"));
+            }
+            url.push_str(path);
+            EvmNetwork::new_custom(&url, &address_from(*token), &address_from(*payments))
+        }
+    }
+}
+
+fn peers_of(c: &Case, tmp: &Path) -> PeersArgs {
+    if !c.has(B_PEERS) {
+        return PeersArgs::default();
+    }
+    let p = &c.peers;
+    let addrs = p
+        .addrs
+        .iter()
+        .map(|a| {
+            let ip = Ipv4Addr::from(a.ip);
+            let id = fakeos::peer_id_from("bootstrap-peer", a.id);
+            let s = match a.form {
+                0 => format!("/ip4/{ip}/udp/{}/quic-v1/p2p/{id}", a.port),
+                1 => format!("/ip4/{ip}/udp/{}/quic-v1", a.port),
+                2 => format!("/ip4/{ip}/tcp/{}/ws/p2p/{id}", a.port),
+                _ => format!("/dns4/node{}.example.org/udp/{}/quic-v1/p2p/{id}", a.id, a.port),
+            };
+            s.parse().expect("generated multiaddr parses")
+        })
+        .collect();
+    PeersArgs {
+        first: p.first,
+        addrs,
+        network_contacts_url: p.urls.clone(),
+        local: p.local,
+        disable_mainnet_contacts: p.testnet,
+        ignore_cache: p.ignore_cache,
+        bootstrap_cache_dir: p.cache_dir.as_ref().map(|d| tmp.join("cache").join(d)),
+    }
+}
+
+// ------------------------------------------------------------------------------------------------
+// the antnode binary
+// ------------------------------------------------------------------------------------------------
+
+static ANTNODE: OnceLock<PathBuf> = OnceLock::new();
+
+fn inconclusive(msg: String) -> ! {
+    eprintln!("vh-mgmt C20: {msg} (inconclusive)");
     std::process::exit(2);
+}
+
+/// Build (no-op when fresh) the hooked antnode from the repository's current working tree.
+fn ensure_antnode(cfg: &RunCfg) -> PathBuf {
+    if let Some(p) = std::env::var_os("ANTNODE_BIN") {
+        return PathBuf::from(p);
+    }
+    let target = cfg.root.join("harness").join("target-antnode");
+    let out = Command::new("cargo")
+        .args(["build", "--release", "--offline", "--locked"])
+        .args(["--manifest-path", "/repo/ant-node/Cargo.toml"])
+        .args(["--features", "verif-hooks", "--bin", "antnode", "--target-dir"])
+        .arg(&target)
+        .env("CARGO_NET_OFFLINE", "true")
+        .output()
+        .unwrap_or_else(|e| inconclusive(format!("cannot run cargo: {e}")));
+    if !out.status.success() {
+        let err = String::from_utf8_lossy(&out.stderr);
+        let tail: Vec<&str> = err.lines().rev().take(30).collect();
+        for l in tail.iter().rev() {
+            eprintln!("{l}");
+        }
+        inconclusive("building antnode with --features verif-hooks failed".into());
+    }
+    target.join("release").join("antnode")
+}
+
+struct Dump {
+    status_ok: bool,
+    stdout: String,
+    stderr: String,
+}
+
+fn run_antnode(ctx: &ServiceInstallCtx, cwd: &Path) -> Dump {
+    let bin = ANTNODE.get().expect("antnode path set");
+    let mut cmd = Command::new(bin);
+    cmd.args(&ctx.args).env_clear().current_dir(cwd);
+    if let Some(home) = std::env::var_os("HOME") {
+        cmd.env("HOME", home);
+    }
+    // the service manager launches the node with the definition's environment
+    if let Some(env) = &ctx.environment {
+        for (k, v) in env {
+            cmd.env(k, v);
+        }
+    }
+    cmd.env("ANTNODE_VERIF_DUMP_OPTS", "1");
+    match cmd.output() {
+        Ok(o) => Dump {
+            status_ok: o.status.success(),
+            stdout: String::from_utf8_lossy(&o.stdout).to_string(),
+            stderr: String::from_utf8_lossy(&o.stderr).to_string(),
+        },
+        Err(e) => inconclusive(format!("cannot spawn {}: {e}", bin.display())),
+    }
+}
+
+/// The hook's report: top-level fields of the pretty-printed `Opt`, plus the three summary lines.
+struct Parsed {
+    fields: BTreeMap<String, String>,
+    rewards: String,
+    evm: String,
+    socket: String,
+    text: String,
+}
+
+fn parse_dump(stdout: &str) -> Option<Parsed> {
+    let start = stdout.find("VERIF-OPT Opt {")?;
+    let text = stdout[start..].to_string();
+    let mut fields: BTreeMap<String, String> = BTreeMap::new();
+    let mut cur: Option<String> = None;
+    let (mut rewards, mut evm, mut socket) = (None, None, None);
+    let mut in_opt = false;
+    for line in text.lines() {
+        if line.starts_with("VERIF-OPT Opt {") {
+            in_opt = true;
+            continue;
+        }
+        if in_opt {
+            if line == "}" {
+                in_opt = false;
+                continue;
+            }
+            let body = line.strip_prefix("    ").unwrap_or(line);
+            let is_field = line.starts_with("    ")
+                && !body.starts_with(' ')
+                && body
+                    .split_once(": ")
+                    .map(|(n, _)| !n.is_empty() && n.chars().all(|c| c.is_ascii_lowercase() || c == '_'))
+                    .unwrap_or(false);
+            if is_field {
+                let (n, v) = body.split_once(": ").unwrap();
+                cur = Some(n.to_string());
+                fields.insert(n.to_string(), v.to_string());
+            } else if let Some(n) = &cur {
+                let e = fields.get_mut(n).unwrap();
+                e.push('\n');
+                e.push_str(body);
+            }
+            continue;
+        }
+        if let Some(r) = line.strip_prefix("VERIF-REWARDS ") {
+            rewards = Some(r.to_string());
+        } else if let Some(r) = line.strip_prefix("VERIF-EVM ") {
+            evm = Some(r.to_string());
+        } else if let Some(r) = line.strip_prefix("VERIF-SOCKET ") {
+            socket = Some(r.to_string());
+        }
+    }
+    for v in fields.values_mut() {
+        if let Some(s) = v.strip_suffix(',') {
+            *v = s.to_string();
+        }
+    }
+    Some(Parsed {
+        fields,
+        rewards: rewards?,
+        evm: evm?,
+        socket: socket?,
+        text,
+    })
+}
+
+/// stable part of a clap / startup error message: first "error:" line with values blanked
+fn error_signature(stderr: &str) -> String {
+    let line = stderr
+        .lines()
+        .find(|l| l.to_lowercase().contains("error"))
+        .or_else(|| stderr.lines().find(|l| !l.trim().is_empty()))
+        .unwrap_or("no message");
+    let mut out = String::new();
+    let mut in_quote = false;
+    for ch in line.chars() {
+        match ch {
+            '\'' => {
+                in_quote = !in_quote;
+                if in_quote {
+                    out.push_str("'_'");
+                }
+            }
+            _ if in_quote => {}
+            c if c.is_ascii_digit() => {
+                if !out.ends_with('N') {
+                    out.push('N');
+                }
+            }
+            c if c.is_ascii_alphanumeric() || c == '-' || c == '_' => out.push(c),
+            _ => {
+                if !out.ends_with(' ') {
+                    out.push(' ');
+                }
+            }
+        }
+    }
+    // for "required arguments were not provided" the argument is on the next line
+    let extra = if line.contains("required arguments") {
+        stderr
+            .lines()
+            .skip_while(|l| !l.contains("required arguments"))
+            .nth(1)
+            .map(|l| l.trim().to_string())
+            .unwrap_or_default()
+    } else {
+        String::new()
+    };
+    format!("{} {}", out.trim(), extra).trim().chars().take(90).collect()
+}
+
+// ------------------------------------------------------------------------------------------------
+// argument grouping
+// ------------------------------------------------------------------------------------------------
+
+/// (global groups, sub-command groups); a group is a flag followed by its values; the sub-command
+/// token starts the second list.
+fn group_args(args: &[String]) -> (Vec<Vec<String>>, Vec<Vec<String>>) {
+    let mut global: Vec<Vec<String>> = vec![];
+    let mut sub: Vec<Vec<String>> = vec![];
+    let mut in_sub = false;
+    for a in args {
+        let dst = if in_sub { &mut sub } else { &mut global };
+        if !in_sub && a.starts_with("evm-") && !a.starts_with("--") {
+            in_sub = true;
+            sub.push(vec![a.clone()]);
+            continue;
+        }
+        if a.starts_with("--") || dst.is_empty() {
+            dst.push(vec![a.clone()]);
+        } else {
+            dst.last_mut().unwrap().push(a.clone());
+        }
+    }
+    global.sort();
+    sub.sort();
+    (global, sub)
+}
+
+fn flag_of(group: &[String]) -> String {
+    group.first().cloned().unwrap_or_default()
+}
+
+// ------------------------------------------------------------------------------------------------
+// the check
+// ------------------------------------------------------------------------------------------------
+
+#[derive(Debug)]
+#[allow(dead_code)]
+enum LogOutputDestArg {
+    Path(PathBuf),
+}
+
+fn pretty<T: std::fmt::Debug>(t: &T) -> String {
+    format!("{t:#?}")
+}
+
+pub struct Outcome {
+    pub failures: Vec<Failure>,
+    pub labels: Vec<String>,
+    pub nontrivial: bool,
+    pub sample: serde_json::Value,
+}
+
+fn fatal(msg: String) -> ! {
+    eprintln!("vh-mgmt: harness environment failure (inconclusive): {msg}");
+    std::process::exit(2);
+}
+
+pub fn execute(c: &Case) -> Outcome {
+    fakeos::block_on(execute_async(c))
+}
+
+async fn execute_async(c: &Case) -> Outcome {
+    let mut failures: Vec<Failure> = vec![];
+    let mut labels: Vec<String> = vec![];
+    macro_rules! fail {
+        ($sig:expr, $detail:expr $(,)?) => {{
+            let (sig, detail): (String, String) = ($sig, $detail);
+            if failures.len() < 12 {
+                failures.push(Failure { sig, detail });
+            }
+        }};
+    }
+
+    let tmp = fakeos::scratch_dir("vh-c20-").unwrap_or_else(|e| fatal(format!("tempdir: {e}")));
+    let src_dir = tmp.path().join("src");
+    std::fs::create_dir_all(&src_dir).unwrap_or_else(|e| fatal(format!("{e}")));
+    let src_bin = src_dir.join("antnode");
+    let new_bin = src_dir.join("antnode-new");
+    std::fs::write(&src_bin, b"old").unwrap_or_else(|e| fatal(format!("{e}")));
+    std::fs::write(&new_bin, b"new").unwrap_or_else(|e| fatal(format!("{e}")));
+    let base_data = tmp.path().join("d").join(&c.data_dir);
+    let base_log = tmp.path().join("l").join(&c.log_dir);
+    let reg_path = tmp.path().join("registry").join("node_registry.json");
+    let mut reg = NodeRegistry::load(&reg_path).unwrap_or_else(|e| fatal(format!("{e}")));
+    let os = FakeOs::new(vec![]);
+    let username = fakeos::current_username();
+    let user_mode = c.user_mode || username.is_none();
+
+    // ---- intended configuration ---------------------------------------------------------------
+    let evm = evm_of(&c.evm);
+    let peers = peers_of(c, tmp.path());
+    let rewards = RewardsAddress::from_str(&address_from(c.rewards)).expect("address");
+    let node_port = c.has(B_NODE_PORT).then_some(c.node_port);
+    let rpc_port = c.has(B_RPC_PORT).then_some(c.rpc_port);
+    let metrics_port = c.has(B_METRICS_PORT).then_some(c.metrics_port);
+    let node_ip = c.has(B_NODE_IP).then(|| Ipv4Addr::from(c.node_ip));
+    let rpc_ip = c.has(B_RPC_IP).then(|| Ipv4Addr::from(c.rpc_ip));
+    let log_format = c
+        .has(B_LOG_FORMAT)
+        .then_some(if c.log_json { LogFormat::Json } else { LogFormat::Default });
+    let max_log_files = c.has(B_MAX_LOG).then_some(c.max_log_files as usize);
+    let max_archived = c.has(B_MAX_ARCH).then_some(c.max_archived_log_files as usize);
+    let owner = c.has(B_OWNER).then(|| c.owner.clone());
+    let network_id = c.has(B_NETWORK_ID).then_some(c.network_id);
+    let env = c.has(B_ENV).then(|| c.env.clone());
+
+    let options = AddNodeServiceOptions {
+        antnode_dir_path: base_data.clone(),
+        antnode_src_path: src_bin.clone(),
+        auto_restart: c.auto_restart,
+        auto_set_nat_flags: false,
+        count: c.count_given.then_some(1),
+        delete_antnode_src: false,
+        enable_metrics_server: c.enable_metrics_server,
+        env_variables: env.clone(),
+        evm_network: evm.clone(),
+        home_network: c.has(B_HOME),
+        log_format,
+        max_archived_log_files: max_archived,
+        max_log_files,
+        metrics_port: metrics_port.map(PortRange::Single),
+        network_id,
+        node_ip,
+        node_port: node_port.map(PortRange::Single),
+        owner: owner.clone(),
+        peers_args: peers.clone(),
+        rewards_address: rewards,
+        rpc_address: rpc_ip,
+        rpc_port: rpc_port.map(PortRange::Single),
+        service_data_dir_path: base_data.clone(),
+        service_log_dir_path: base_log.clone(),
+        upnp: c.has(B_UPNP),
+        user: if user_mode { None } else { username.clone() },
+        user_mode,
+        version: "0.112.3".to_string(),
+    };
+
+    let set_bits = (0..N_BITS).filter(|b| c.mask & (1 << b) != 0).count();
+    let custom = matches!(c.evm, Evm::Custom { .. });
+    for (b, name) in BIT_NAMES.iter().enumerate() {
+        if c.mask & (1 << b) != 0 {
+            labels.push(format!("opt/{name}"));
+        }
+    }
+    labels.push(format!("options_set/{}", set_bits.min(14) / 2 * 2));
+    labels.push(format!("evm/{}", match c.evm { Evm::ArbitrumOne => "one", Evm::ArbitrumSepolia => "sepolia", Evm::Custom { .. } => "custom" }));
+    labels.push(format!("mode/{}", if user_mode { "user" } else { "system" }));
+    if c.has(B_PEERS) {
+        let p = &c.peers;
+        if p.first { labels.push("peers/first".into()); }
+        if p.local { labels.push("peers/local".into()); }
+        if p.testnet { labels.push("peers/testnet".into()); }
+        if p.ignore_cache { labels.push("peers/ignore_cache".into()); }
+        if !p.addrs.is_empty() { labels.push("peers/addrs".into()); }
+        if !p.urls.is_empty() { labels.push("peers/contacts_urls".into()); }
+        if p.cache_dir.is_some() { labels.push("peers/cache_dir".into()); }
+    }
+    if c.data_dir.contains(' ') || c.log_dir.contains(' ') {
+        labels.push("path_with_space".into());
+    }
+    let nontrivial = set_bits >= 3 && (custom || c.mask & (B_PEERS | B_LOG_FORMAT | B_MAX_LOG | B_MAX_ARCH) != 0);
+    let sample = json!({
+        "options": BIT_NAMES.iter().enumerate().filter(|(b, _)| c.mask & (1 << b) != 0).map(|(_, n)| *n).collect::<Vec<_>>(),
+        "evm": format!("{:?}", c.evm),
+        "data_dir": c.data_dir, "log_dir": c.log_dir,
+        "peers": if c.has(B_PEERS) { format!("{:?}", c.peers) } else { "-".into() },
+        "owner": owner, "user_mode": user_mode,
+        "started_before_upgrade": c.start_before_upgrade,
+    });
+    macro_rules! done {
+        () => {
+            return Outcome { failures, labels, nontrivial, sample }
+        };
+    }
+
+    // ---- install --------------------------------------------------------------------------------
+    if let Err(e) = add_node(options, &mut reg, &os, VerbosityLevel::Minimal).await {
+        fail!("add_node_fails".into(), format!("add_node returned Err for an admissible option set: {e}"));
+        done!();
+    }
+    reg.save().unwrap_or_else(|e| fatal(format!("save: {e}")));
+    let install_ctx = match os.st().install_history.first().cloned() {
+        Some((ctx, _)) => ctx,
+        None => {
+            fail!("add_node_installed_nothing".into(), "add_node Ok without an install call".into());
+            done!();
+        }
+    };
+    if reg.nodes.len() != 1 {
+        fail!("add_node_entry_count".into(), format!("{} entries after one add", reg.nodes.len()));
+        done!();
+    }
+
+    // ---- optional start (the registry learns the listening port) -------------------------------
+    let mut started = false;
+    if c.start_before_upgrade {
+        let rpc = os.rpc(reg.nodes[0].rpc_socket_addr);
+        let service = NodeService::new(&mut reg.nodes[0], Box::new(rpc))
+            .with_connection_timeout(Duration::from_secs(300));
+        let mut manager = ServiceManager::new(service, Box::new(os.clone()), VerbosityLevel::Minimal);
+        match manager.start().await {
+            Ok(()) => started = true,
+            Err(e) => labels.push(format!("start_failed:{e}")),
+        }
+        drop(manager);
+        reg.save().unwrap_or_else(|e| fatal(format!("save: {e}")));
+        labels.push("started_before_upgrade".into());
+    }
+    let recorded = reg.nodes[0].clone();
+
+    // ---- upgrade (forced), as cmd/node.rs builds its options --------------------------------------
+    let up_env = if c.up.env_override.is_some() {
+        c.up.env_override.clone()
+    } else {
+        reg.environment_variables.clone()
+    };
+    let up_options = UpgradeOptions {
+        auto_restart: c.up.auto_restart,
+        env_variables: up_env.clone(),
+        force: true,
+        start_service: c.up.start_service,
+        target_bin_path: new_bin.clone(),
+        target_version: semver::Version::new(0, 112, 4),
+    };
+    {
+        let rpc = os.rpc(reg.nodes[0].rpc_socket_addr);
+        let service = NodeService::new(&mut reg.nodes[0], Box::new(rpc))
+            .with_connection_timeout(Duration::from_secs(300));
+        let mut manager = ServiceManager::new(service, Box::new(os.clone()), VerbosityLevel::Minimal);
+        if let Err(e) = manager.upgrade(up_options).await {
+            fail!("upgrade_fails".into(), format!("forced upgrade returned Err: {e}"));
+            done!();
+        }
+    }
+    let upgrade_ctx = {
+        let st = os.st();
+        if st.install_history.len() < 2 {
+            drop(st);
+            fail!("upgrade_did_not_reinstall".into(), "no second install call".into());
+            done!();
+        }
+        st.install_history.last().unwrap().0.clone()
+    };
+
+    // ---- (1) definition equality ------------------------------------------------------------------
+    if install_ctx.program != upgrade_ctx.program {
+        fail!("upgrade_changes/program".into(), format!("{:?} -> {:?}", install_ctx.program, upgrade_ctx.program));
+    }
+    if install_ctx.username != upgrade_ctx.username {
+        fail!("upgrade_changes/username".into(), format!("{:?} -> {:?}", install_ctx.username, upgrade_ctx.username));
+    }
+    if install_ctx.label != upgrade_ctx.label {
+        fail!("upgrade_changes/label".into(), format!("{:?} -> {:?}", install_ctx.label, upgrade_ctx.label));
+    }
+    if install_ctx.contents != upgrade_ctx.contents {
+        fail!("upgrade_changes/contents".into(), format!("{:?} -> {:?}", install_ctx.contents, upgrade_ctx.contents));
+    }
+    if install_ctx.working_directory != upgrade_ctx.working_directory {
+        fail!(
+            "upgrade_changes/working_directory".into(),
+            format!("{:?} -> {:?}", install_ctx.working_directory, upgrade_ctx.working_directory),
+        );
+    }
+    if upgrade_ctx.autostart != c.up.auto_restart {
+        fail!(
+            "upgrade_ignores_option/auto_restart".into(),
+            format!("UpgradeOptions.auto_restart={} but definition autostart={}", c.up.auto_restart, upgrade_ctx.autostart),
+        );
+    }
+    if upgrade_ctx.environment != up_env {
+        fail!(
+            "upgrade_ignores_option/env_variables".into(),
+            format!("UpgradeOptions.env_variables={:?} but definition environment={:?}", up_env, upgrade_ctx.environment),
+        );
+    }
+    // install-time: what the caller asked for
+    if install_ctx.autostart != c.auto_restart {
+        fail!("install_ignores_option/auto_restart".into(), format!("asked {} got {}", c.auto_restart, install_ctx.autostart));
+    }
+    if install_ctx.environment != env {
+        fail!("install_ignores_option/env_variables".into(), format!("asked {:?} got {:?}", env, install_ctx.environment));
+    }
+    let to_strings = |ctx: &ServiceInstallCtx| -> Vec<String> {
+        ctx.args.iter().map(|a| a.to_string_lossy().to_string()).collect()
+    };
+    let (ig, is) = group_args(&to_strings(&install_ctx));
+    let (mut ug, us) = group_args(&to_strings(&upgrade_ctx));
+    let mut port_added = false;
+    if started && node_port.is_none() {
+        // the one admissible addition: the port learnt from the running node
+        if let Some(p) = recorded.node_port {
+            let extra = vec!["--port".to_string(), p.to_string()];
+            if let Some(pos) = ug.iter().position(|g| *g == extra) {
+                if !ig.contains(&extra) {
+                    ug.remove(pos);
+                    port_added = true;
+                    labels.push("upgrade_adds_recorded_port".into());
+                }
+            }
+        }
+    }
+    if ig != ug || is != us {
+        let mut missing: Vec<String> = vec![];
+        let mut added: Vec<String> = vec![];
+        for (a, b) in [(&ig, &ug), (&is, &us)] {
+            let mut rest = b.clone();
+            for g in a.iter() {
+                match rest.iter().position(|x| x == g) {
+                    Some(p) => {
+                        rest.remove(p);
+                    }
+                    None => missing.push(flag_of(g)),
+                }
+            }
+            added.extend(rest.iter().map(|g| flag_of(g)));
+        }
+        missing.sort();
+        added.sort();
+        // signature by the flags concerned (a flag both missing and added = changed value)
+        let changed: Vec<String> = missing.iter().filter(|f| added.contains(f)).cloned().collect();
+        let sig = if !changed.is_empty() {
+            format!("upgrade_changes_arg/{}", changed.join("+"))
+        } else if !missing.is_empty() {
+            format!("upgrade_drops_arg/{}", missing.join("+"))
+        } else {
+            format!("upgrade_adds_arg/{}", added.join("+"))
+        };
+        fail!(
+            sig,
+            format!("install args {:?} | upgrade args {:?}", to_strings(&install_ctx), to_strings(&upgrade_ctx)),
+        );
+    }
+
+    // ---- (2) the node binary's reading of both argument lists ------------------------------------
+    let d1 = run_antnode(&install_ctx, tmp.path());
+    let d2 = if to_strings(&install_ctx) == to_strings(&upgrade_ctx) && install_ctx.environment == upgrade_ctx.environment {
+        Dump { status_ok: d1.status_ok, stdout: d1.stdout.clone(), stderr: d1.stderr.clone() }
+    } else {
+        run_antnode(&upgrade_ctx, tmp.path())
+    };
+    let mut parsed: Vec<Option<Parsed>> = vec![];
+    for (which, d, ctx) in [("install", &d1, &install_ctx), ("upgrade", &d2, &upgrade_ctx)] {
+        let p = if d.status_ok { parse_dump(&d.stdout) } else { None };
+        if p.is_none() {
+            fail!(
+                format!("antnode_rejects_{which}_args/{}", error_signature(&d.stderr)),
+                format!("args {:?} | exit ok={} | stderr: {}", to_strings(ctx), d.status_ok, vh_core::one_line(&d.stderr, 300)),
+            );
+        }
+        parsed.push(p);
+    }
+    let (Some(p1), Some(p2)) = (&parsed[0], &parsed[1]) else {
+        done!();
+    };
+    // same interpretation of both lists (field-wise, so that the signature names the field)
+    for (name, v1) in &p1.fields {
+        let v2 = p2.fields.get(name).cloned().unwrap_or_default();
+        if *v1 != v2 {
+            if name == "port" && port_added {
+                continue;
+            }
+            fail!(
+                format!("upgrade_changes_interpretation/{name}"),
+                format!("install-time: {} | upgrade-time: {}", vh_core::one_line(v1, 150), vh_core::one_line(&v2, 150)),
+            );
+        }
+    }
+    if p1.rewards != p2.rewards {
+        fail!("upgrade_changes_interpretation/rewards_address".into(), format!("{} | {}", p1.rewards, p2.rewards));
+    }
+    if p1.evm != p2.evm {
+        fail!("upgrade_changes_interpretation/evm_network".into(), format!("{} | {}", p1.evm, p2.evm));
+    }
+    if p1.socket != p2.socket && !port_added {
+        fail!("upgrade_changes_interpretation/socket".into(), format!("{} | {}", p1.socket, p2.socket));
+    }
+    if !port_added && p1.text != p2.text && failures_is_empty_hint(&p1.fields, &p2.fields) {
+        fail!("upgrade_changes_interpretation/other".into(), "dumps differ outside the known fields".into());
+    }
+
+    // the intended configuration, field by field (install-time reading)
+    let data_dir = recorded.data_dir_path.clone();
+    let log_dir = recorded.log_dir_path.clone();
+    if !data_dir.starts_with(&base_data) {
+        fail!("service_data_dir_outside_requested_dir".into(), format!("{} not under {}", data_dir.display(), base_data.display()));
+    }
+    if !log_dir.starts_with(&base_log) {
+        fail!("service_log_dir_outside_requested_dir".into(), format!("{} not under {}", log_dir.display(), base_log.display()));
+    }
+    let rpc_addr = SocketAddr::new(
+        IpAddr::V4(rpc_ip.unwrap_or(Ipv4Addr::new(127, 0, 0, 1))),
+        rpc_port.unwrap_or(recorded.rpc_socket_addr.port()),
+    );
+    if rpc_port.is_none() && recorded.rpc_socket_addr.port() < 40_000 {
+        fail!("rpc_port_not_from_allocator".into(), format!("{}", recorded.rpc_socket_addr));
+    }
+    let metrics_expected: u16 = match metrics_port {
+        Some(p) => p,
+        None if c.enable_metrics_server => {
+            // allocated by antctl; the registry is the user-visible record of it
+            match recorded.metrics_port {
+                Some(p) if p >= 40_000 => p,
+                other => {
+                    fail!("metrics_port_not_allocated".into(), format!("enable_metrics_server given, registry records {other:?}"));
+                    0
+                }
+            }
+        }
+        None => 0,
+    };
+    let ip_expected = IpAddr::V4(node_ip.unwrap_or(Ipv4Addr::UNSPECIFIED));
+    let port_expected = node_port.unwrap_or(0);
+    let expected: Vec<(&str, String)> = vec![
+        ("home_network", pretty(&c.has(B_HOME))),
+        ("upnp", pretty(&c.has(B_UPNP))),
+        ("log_output_dest", pretty(&LogOutputDestArg::Path(log_dir.clone()))),
+        ("log_format", pretty(&log_format)),
+        ("max_log_files", pretty(&max_log_files)),
+        ("max_archived_log_files", pretty(&max_archived)),
+        ("network_id", pretty(&network_id)),
+        ("root_dir", pretty(&Some(data_dir.clone()))),
+        ("port", pretty(&port_expected)),
+        ("ip", pretty(&ip_expected)),
+        ("peers", pretty(&peers)),
+        ("rpc", pretty(&Some(rpc_addr))),
+        // antctl's documented normalisation: owner names are lower-cased
+        ("owner", pretty(&owner.as_ref().map(|o| o.to_lowercase()))),
+        ("metrics_server_port", pretty(&metrics_expected)),
+        ("crate_version", "false".into()),
+        ("protocol_version", "false".into()),
+        ("package_version", "false".into()),
+        ("version", "false".into()),
+    ];
+    for (name, want) in &expected {
+        match p1.fields.get(*name) {
+            None => fail!(format!("antnode_dump_lacks_field/{name}"), vh_core::one_line(&p1.text, 300)),
+            Some(got) if got != want => fail!(
+                format!("antnode_misreads/{name}"),
+                format!("intended {} | antnode parsed {} | args {:?}", vh_core::one_line(want, 200), vh_core::one_line(got, 200), to_strings(&install_ctx)),
+            ),
+            _ => {}
+        }
+    }
+    // metrics server must come up when asked for (flag or port)
+    if (c.enable_metrics_server || metrics_port.is_some())
+        && metrics_expected == 0
+        && p1.fields.get("enable_metrics_server").map(|s| s.as_str()) != Some("true")
+    {
+        fail!("antnode_misreads/metrics_server_not_enabled".into(), format!("args {:?}", to_strings(&install_ctx)));
+    }
+    if p1.rewards != format!("{rewards:?}") {
+        fail!("antnode_misreads/rewards_address".into(), format!("intended {rewards:?} | parsed {}", p1.rewards));
+    }
+    if p1.evm != format!("{evm:?}") {
+        fail!("antnode_misreads/evm_network".into(), format!("intended {evm:?} | parsed {}", p1.evm));
+    }
+    if p1.socket != SocketAddr::new(ip_expected, port_expected).to_string() {
+        fail!("antnode_misreads/socket".into(), format!("intended {ip_expected}:{port_expected} | parsed {}", p1.socket));
+    }
+    // after a start, the upgrade-time reading must carry the recorded port
+    if port_added {
+        let want = pretty(&recorded.node_port.unwrap_or(0));
+        if p2.fields.get("port") != Some(&want) {
+            fail!("antnode_misreads/port_after_upgrade".into(), format!("recorded {:?} parsed {:?}", recorded.node_port, p2.fields.get("port")));
+        }
+    }
+    Outcome {
+        failures,
+        labels,
+        nontrivial,
+        sample,
+    }
+}
+
+/// true when every known field agrees (so a textual difference lies elsewhere)
+fn failures_is_empty_hint(a: &BTreeMap<String, String>, b: &BTreeMap<String, String>) -> bool {
+    a == b
+}
+
+pub fn check(case: &Case, ctx: &mut Ctx) {
+    let o = execute(case);
+    for l in o.labels {
+        ctx.label(l);
+    }
+    ctx.nontrivial_if(o.nontrivial);
+    ctx.sample = Some(o.sample);
+    for f in o.failures {
+        ctx.fail(f.sig, f.detail);
+    }
+}
+
+// ------------------------------------------------------------------------------------------------
+// thorough: every presence/absence pattern of the 14 optional options, values random
+// ------------------------------------------------------------------------------------------------
+
+fn all_patterns(rep: &mut Report) {
+    use proptest::strategy::ValueTree;
+    use proptest::test_runner::{Config, RngAlgorithm, TestRng, TestRunner};
+    use std::sync::atomic::{AtomicBool, Ordering};
+    let name = "all_presence_patterns";
+    if let Some(o) = &rep.cfg.only {
+        if !name.contains(o.as_str()) {
+            return;
+        }
+    }
+    if rep.cfg.replay.is_some() {
+        return;
+    }
+    let t0 = Instant::now();
+    let total: u32 = 1 << N_BITS;
+    let n = ((total as f64) * rep.cfg.scale.min(1.0)).ceil().max(1.0) as u32;
+    let workers = rep.cfg.workers.max(1);
+    let deadline = Instant::now() + rep.budget_left();
+    let stop = AtomicBool::new(false);
+    struct W {
+        stats: SectionStats,
+        violation: Option<(Failure, serde_json::Value)>,
+        complete: bool,
+    }
+    let results: std::sync::Mutex<Vec<(usize, W)>> = std::sync::Mutex::new(vec![]);
+    {
+        let this: &Report = rep;
+        let stop = &stop;
+        let results = &results;
+        std::thread::scope(|scope| {
+            for w in 0..workers {
+                std::thread::Builder::new()
+                    .name(format!("C20-patterns-w{w}"))
+                    .stack_size(16 << 20)
+                    .spawn_scoped(scope, move || {
+                        let seed = vh_core::derive_seed(this.cfg.seed, "C20", name, w as u64);
+                        let mut runner = TestRunner::new_with_rng(
+                            Config { failure_persistence: None, ..Config::default() },
+                            TestRng::from_seed(RngAlgorithm::ChaCha, &seed),
+                        );
+                        let mut out = W { stats: SectionStats::default(), violation: None, complete: true };
+                        let mut mask = w as u32;
+                        while mask < n {
+                            if stop.load(Ordering::Relaxed) {
+                                out.complete = false;
+                                break;
+                            }
+                            if Instant::now() > deadline {
+                                out.complete = false;
+                                out.stats.stopped_by_budget = true;
+                                break;
+                            }
+                            let case = case_strategy(Some(mask as u16))
+                                .new_tree(&mut runner)
+                                .expect("generate")
+                                .current();
+                            let o = match vh_core::catch_panic(|| execute(&case)) {
+                                Ok(o) => o,
+                                Err(msg) => Outcome {
+                                    failures: vec![Failure { sig: "panic".into(), detail: msg }],
+                                    labels: vec![],
+                                    nontrivial: false,
+                                    sample: serde_json::Value::Null,
+                                },
+                            };
+                            out.stats.evaluations += 1;
+                            for l in &o.labels {
+                                *out.stats.classes.entry(l.clone()).or_default() += 1;
+                            }
+                            if o.nontrivial {
+                                let fresh = out.stats.nontrivial_hashes.insert(vh_core::stable_hash(&format!("{case:?}")));
+                                if fresh && out.stats.samples.len() < 1 {
+                                    out.stats.samples.push(o.sample.clone());
+                                }
+                            }
+                            if !o.failures.is_empty() {
+                                let unknown: Vec<&Failure> =
+                                    o.failures.iter().filter(|f| !this.is_known("options", &f.sig)).collect();
+                                if unknown.is_empty() {
+                                    out.stats.excluded_known += 1;
+                                    let mut seen = this.known_seen.lock().unwrap();
+                                    for f in &o.failures {
+                                        seen.insert(f.sig.clone());
+                                    }
+                                } else {
+                                    out.violation = Some((
+                                        unknown[0].clone(),
+                                        serde_json::to_value(&case).unwrap_or(serde_json::Value::Null),
+                                    ));
+                                    out.complete = false;
+                                    stop.store(true, Ordering::Relaxed);
+                                    break;
+                                }
+                            }
+                            mask += workers as u32;
+                        }
+                        results.lock().unwrap().push((w, out));
+                    })
+                    .expect("spawn");
+            }
+        });
+    }
+    let mut results = results.into_inner().unwrap();
+    results.sort_by_key(|(w, _)| *w);
+    let mut stats = SectionStats {
+        name: name.to_string(),
+        rule: "every presence/absence pattern of the 14 optional options (node/rpc/metrics port, node ip, rpc ip, peers args, log format, max log files, max archived log files, owner, network id, home-network, upnp, env), one case per pattern with all values (and evm network, user mode, directories, upgrade inputs) drawn at random; exhaustive over patterns, not over values; non-trivial: >=3 options set incl. custom evm / peers / log settings".into(),
+        ..Default::default()
+    };
+    let mut complete = n == total;
+    let mut violation = None;
+    for (_, r) in results {
+        stats.evaluations += r.stats.evaluations;
+        stats.nontrivial_hashes.extend(r.stats.nontrivial_hashes);
+        for (k, v) in r.stats.classes {
+            *stats.classes.entry(k).or_default() += v;
+        }
+        for s in r.stats.samples {
+            if stats.samples.len() < 2 {
+                stats.samples.push(s);
+            }
+        }
+        stats.excluded_known += r.stats.excluded_known;
+        stats.stopped_by_budget |= r.stats.stopped_by_budget;
+        complete &= r.complete;
+        if violation.is_none() {
+            violation = r.violation;
+        }
+    }
+    stats.exhaustive = complete && violation.is_none();
+    stats.wall_s = t0.elapsed().as_secs_f64();
+    stats.extra.insert("patterns_total".into(), json!(total));
+    if stats.stopped_by_budget {
+        rep.inconclusive.push(format!("section {name} stopped by time budget"));
+    }
+    rep.add_manual(stats);
+    if let Some((f, case)) = violation {
+        rep.manual_violation("options", f, &case);
+    }
+}
+
+pub fn run(cfg: RunCfg) {
+    if ant_node_manager::config::get_user_antnode_data_dir().is_err() {
+        fatal("no user data directory (HOME unset?): add_node cannot run".into());
+    }
+    let bin = ensure_antnode(&cfg);
+    if !bin.is_file() {
+        inconclusive(format!("{} does not exist", bin.display()));
+    }
+    let _ = ANTNODE.set(bin.clone());
+    // the hook must be in the binary, otherwise a node would really start
+    {
+        let probe = Command::new(&bin)
+            .args(["--rewards-address", "0x03B770D9cD32077cC0bF330c13C114a87643B124", "evm-arbitrum-one"])
+            .env_clear()
+            .env("ANTNODE_VERIF_DUMP_OPTS", "1")
+            .current_dir(std::env::temp_dir())
+            .output()
+            .unwrap_or_else(|e| inconclusive(format!("cannot spawn {}: {e}", bin.display())));
+        let so = String::from_utf8_lossy(&probe.stdout);
+        if !probe.status.success() || parse_dump(&so).is_none() {
+            inconclusive(format!(
+                "{} does not answer the ANTNODE_VERIF_DUMP_OPTS hook (built without --features verif-hooks?)",
+                bin.display()
+            ));
+        }
+    }
+    let mut rep = Report::new(cfg, "exploration");
+    rep.extra.insert("antnode_binary".into(), json!(bin.display().to_string()));
+    rep.rule = "C20: option combinations -> real add_node and real ServiceManager::upgrade(force) over FakeOS; captured install vs. re-install ServiceInstallCtx compared; both argument lists run through the real antnode (verif-hooks early exit) and its parsed options compared with each other and with the intended configuration.".into();
+    rep.assumptions = vec![
+        "trusted base: FakeOS (ServiceControl/RpcActions seam); what the OS service manager does with a ServiceInstallCtx (unit-file quoting of arguments with spaces etc.) is below the seam and not exercised: the argument vector is passed to antnode as is".into(),
+        "antnode is built from the same working tree with --features verif-hooks; the hook prints the parsed options after rewards-address and EVM-network resolution and exits before anything is created; interpretation beyond the parsed options (e.g. how --upnp and --home-network interact at run time) is not judged".into(),
+        "generated inputs are what antctl's own command line can produce: clap conflicts of PeersArgs (--first vs --peer/--network-contacts-url, --local vs --network-contacts-url) and --count vs --first respected; URLs without ','; owner never starts with '-'; directory names are valid UTF-8 without '/'; the three requested ports are pairwise distinct and < 65535 (antctl computes port+1 unconditionally: C17's subject); env values without ','".into(),
+        "UpgradeOptions.auto_restart and .env_variables are explicit upgrade inputs (statement: 'differing only where the upgrade explicitly changes something'); env defaults to the registry's variables as cmd/node.rs does. cmd::node::upgrade itself hard-codes auto_restart=false; that glue needs downloads and the real service manager and is outside the harness".into(),
+        "data/log directory of the service: the registry's recorded paths are taken as the intended ones, and must lie under the requested base directories".into(),
+        "the node is spawned with a cleared environment plus the definition's environment variables; variables that change option interpretation (ANT_PEERS, EVM_*/RPC_URL) are not generated".into(),
+    ];
+    fakeos::quietly(&mut rep, |rep| {
+        vh_core::section!(
+            rep,
+            "options",
+            (3_000, 60_000),
+            16,
+            "presence mask over 14 optional options (uniform / dense / all), evm network 3 kinds (custom: generated url + addresses), ports, ips, peers args within clap's conflict rules, log settings, owner, network id, flags, user/system mode, env, directory names with spaces/quotes/unicode, optional start before the forced upgrade, upgrade inputs; non-trivial: >=3 optional options set incl. one of custom evm / peers args / log settings; distinct by case",
+            || case_strategy(None),
+            check
+        )
+    });
+    if rep.tier() == vh_core::Tier::Thorough {
+        fakeos::quietly(&mut rep, all_patterns);
+    }
+    rep.finish();
 }
